@@ -18,7 +18,7 @@ class C02(CoreProp):
     prop_file = "Props/C02.v"
     coq_targets = ["Props/C02.vo", "Props/C02Fuel.vo", "Run/Judge_Core.vo", "Props/Tables.vo"]
     extra_props = [("Props/C02Fuel.v", "Props.C02Fuel")]
-    sizes = {"quick": 320, "thorough": 8000}
+    sizes = {"quick": 320, "thorough": 2400}
     shard = 12
     design_ref = "DESIGN.md section 6/C02"
     rule = ("random nestings (depth <= 4 quick, 5 thorough) of if / else-if / else, case / when / default, each over arrays "
